@@ -181,13 +181,16 @@ def main():
                         n += 1
     # ---- the HTTP relay's pool: real HttpRelay against a loopback peer, several attempts, keep-alive on and off
     from harness import hdrv
-    HACTS = ['ok200', 'ok200body', 'ok200chunked', 'hdr450body', 'ok204plain', 'hdr550', 'hdr450', 'plain500', 'plain404', 'close', 'garbage', 'stall']
+    HACTS = ['ok200', 'ok200body', 'ok200chunked', 'hdr450body', 'ok204plain', 'hdr550', 'hdr450', 'plain500', 'plain404', 'close', 'garbage', 'stall',
+             'okstallbody']
     for it in range(6 if quick else 150):
         pool_size = rnd.choice([1, 1, 2, None])
         idle = rnd.choice([None, 5, 5])
         nreq = rnd.randint(2, 4)
         acts = [rnd.choice(HACTS) if rnd.random() < 0.5 else rnd.choice(['ok200', 'ok200body']) for _ in range(nreq)] + ['ok200']
-        r = hdrv.HttpRun(acts, pool_size=pool_size, idle_timeout=idle, relay_side_conns=True)
+        # (a third of the runs: the application's ehlo_as function fails at one of the connection set-ups)
+        ehlo_fail = (rnd.randint(1, 3),) if it % 3 == 1 else ()
+        r = hdrv.HttpRun(acts, pool_size=pool_size, idle_timeout=idle, relay_side_conns=True, ehlo_fail=ehlo_fail)
         sched = rnd.choice(['ccc', 'cscsc', 'ccsc', 'cscc', 'cccc', 'cscscsc'])[:2 * nreq]
         req = 0
         for ch in sched:
